@@ -3,7 +3,7 @@
    native types; Z, positive, nat stay extracted datatypes; no Extract Constant. *)
 From Coq Require Import ZArith List.
 From Coq Require Extraction ExtrOcamlBasic.
-From MV Require Import Base.Res Model.EventTree Model.TreeOps Model.Num Model.Envelope Model.Convert.
+From MV Require Import Base.Res Model.EventTree Model.TreeOps Model.Num Model.Envelope Model.Convert Model.Equality Model.Numbers.
 Extraction Language OCaml.
 
 Extraction "model.ml"
@@ -12,4 +12,6 @@ Extraction "model.ml"
   sequentialize concatenate seq_add get_by_tag set_by_tag del_by_tag remove_by tie_by lslice with_children children
   value_at curve_shape_at point_at points_in_range integrate average is_static sample_at env_extend_until
   env_cut_out env_cut_off env_split_at of_points to_points pdur pstarts
-  seconds_env convert convert_history metrize.
+  seconds_env convert convert_history metrize
+  ev_eqb ev_neqb
+  d_eq d_lt d_le d_gt d_ge d_ne arith st_run st_beat st_read parse_duration parse_tempo seconds_of western_bpm qval to_ticks.
